@@ -102,7 +102,8 @@ CONTEXT = {
         "build_arguments": [("all_children", "Arguments", None, None), ("parts", "Argument", None, None)],
         "build_string_value": [
             ("only_child", "StringValue", MATCH, None),
-            ("into_inner", "NormalStringValue", ("all", "StringCharacter"), r"let characters = pair\.into_inner\(\)"),
+            ("into_inner", "NormalStringValue", ("all", "StringCharacter"),
+             r"let mut characters = pair\.into_inner\(\)\.map\(\|pair\| pair\.only_child\(\)\)\.peekable\(\)"),
             ("only_child", "StringCharacter", MATCH, None),
             ("only_child", "EscapedUnicodeBrace", ANY, r"from_str_radix\(pair\.as_str\(\), 16\)"),
         ],
